@@ -305,6 +305,11 @@ func RunConcCrashScenario(sc *Scenario) (vd *Verdict) {
 				op := co.op
 				if op.Sleep > 0 {
 					time.Sleep(time.Duration(op.Sleep))
+					if op.K == "backup" {
+						// a task that wakes from its sleep runs beside the scheduled task until it reaches a hook; a backup
+						// run reaches none before its snapshot, so it queues for its turn here
+						hooks.Point(h.Store.VerifDB(), "harness.afterSleep")
+					}
 				}
 				injectedFor[tk] = false
 				switch op.K {
